@@ -1920,3 +1920,69 @@ func runGroupRowStamp(c *Ctx, rule string) {
 		c.Undecided(rule, "(*runtime/sam/op/groupby.Aggregator).Consume", "no store to Row.groupval found")
 	}
 }
+
+// ---- C16-R1: surviving seek entries are merged into a byte range only when they touch.
+//
+// Ranges.Append extends the previous range by the new entry's length.  That is the right end only
+// if the entry starts where the previous range ends.  Merging across a gap (to "coalesce small
+// holes") is only sound if the new length is computed from the entry's offset.
+func runSeekRangeMerge(c *Ctx, rule string) {
+	p := c.P
+	c.Rule(rule, "a surviving seek-index entry is merged into the previous byte range either only when it starts at (or before) the end of that range — the test involves no slack constant — or with a length computed from the entry's own offset; otherwise the merged range stops short of the entry and the scan reads pruned bytes instead of matching ones")
+	fn := p.Func("(*lake/seekindex.Ranges).Append")
+	if fn == nil {
+		c.Undecided(rule, "(*lake/seekindex.Ranges).Append", "anchor does not resolve")
+		return
+	}
+	n := 0
+	for _, b := range fn.Blocks {
+		for _, in := range b.Instrs {
+			st, ok := in.(*ssa.Store)
+			if !ok {
+				continue
+			}
+			fa, ok := st.Addr.(*ssa.FieldAddr)
+			if !ok || namedOf(fa.X.Type()) != "lake/seekindex.Range" || fieldName(fa.X.Type(), fa.Field) != "Length" {
+				continue
+			}
+			n++
+			usesOffset := dependsOn(st.Val, func(v ssa.Value) bool {
+				f, ok := v.(*ssa.FieldAddr)
+				if ok && namedOf(f.X.Type()) == "lake/seekindex.Entry" && fieldName(f.X.Type(), f.Field) == "Offset" {
+					return true
+				}
+				fl, ok := v.(*ssa.Field)
+				return ok && namedOf(fl.X.Type()) == "lake/seekindex.Entry" && fieldName(fl.X.Type(), fl.Field) == "Offset"
+			})
+			slack := false
+			for _, gb := range fn.Blocks {
+				iff, ok := gb.Instrs[len(gb.Instrs)-1].(*ssa.If)
+				if !ok || !gb.Dominates(b) || gb == b {
+					continue
+				}
+				if dependsOn(iff.Cond, func(v ssa.Value) bool {
+					k, ok := v.(*ssa.Const)
+					if !ok || k.Value == nil || k.Value.Kind() != constant.Int {
+						return false
+					}
+					i, exact := constant.Int64Val(k.Value)
+					return !exact || i > 1 || i < -1
+				}) {
+					slack = true
+				}
+			}
+			construct := "(*lake/seekindex.Ranges).Append extends the previous range"
+			switch {
+			case usesOffset:
+				c.OK(rule, construct, st.Pos(), "the new length is computed from the entry's offset")
+			case slack:
+				c.Fail(rule, construct, st.Pos(), "the previous range is extended by the entry's length although the test that leads here tolerates a gap (a slack constant takes part in it): the range then ends before the entry does, so the scan covers the pruned bytes after the previous range and misses the tail of the surviving entry — matching values are not returned, or the reader hits a torn frame")
+			default:
+				c.OK(rule, construct, st.Pos(), "only when the entry touches the previous range")
+			}
+		}
+	}
+	if n == 0 {
+		c.Undecided(rule, "(*lake/seekindex.Ranges).Append", "no extension of a range found")
+	}
+}
